@@ -356,6 +356,12 @@ def battery(reg, Q, U, M, seed, spellings):
     # evolution of the registry itself (last: it mutates)
     out["define_new"] = _ans(lambda: (reg.define("zork_c18 = 3 meter = zk18"), _q(Q(2, "zk18").to("m")))[1])
     out["define_alias"] = _ans(lambda: (reg.define("@alias zork_c18 = zorky18"), _q(Q(2, "zorky18").to("m")))[1])
+    # a spelling first READ as prefix + unit, then given its own definition, then read again (every
+    # memoised reading of it must follow the definition)
+    out["define_after_read:before"] = _ans(lambda: [str(U("mmi")), _q(Q(3, "mmi").to("mile")), str(reg.parse_units("mmi / s"))])
+    out["define_after_read:define"] = _ans(lambda: (reg.define("mmi = 1000 * mile"), "accepted")[1])
+    out["define_after_read:after"] = _ans(lambda: [str(U("mmi")), _q(Q(3, "mmi").to("mile")), str(reg.parse_units("mmi / s")),
+                                                     _q(reg.parse_expression("3 mmi").to("mile"))])
     out["redefine"] = _ans(lambda: (reg.define("meter = 2 foot"), "accepted")[1])
     return norm(out)
 
